@@ -305,6 +305,7 @@ func EveryPathFromHas(start, target *ssa.BasicBlock, pats ...string) (ok bool, t
 type Loop struct {
 	Header  *ssa.BasicBlock
 	Latches []*ssa.BasicBlock // blocks with an edge back to Header
+	Body    map[*ssa.BasicBlock]bool
 }
 
 // Loops lists the natural loops of fn (one per header).
@@ -330,7 +331,20 @@ func Loops(fn *ssa.Function) []Loop {
 	}
 	var out []Loop
 	for _, h := range order {
-		out = append(out, *m[h])
+		l := m[h]
+		// natural loop body: blocks that reach a latch backwards without passing the header
+		l.Body = map[*ssa.BasicBlock]bool{h: true}
+		work := append([]*ssa.BasicBlock{}, l.Latches...)
+		for len(work) > 0 {
+			b := work[0]
+			work = work[1:]
+			if l.Body[b] {
+				continue
+			}
+			l.Body[b] = true
+			work = append(work, fi.Preds[b]...)
+		}
+		out = append(out, *l)
 	}
 	return out
 }
